@@ -65,7 +65,9 @@ def ALPHABETS():
 
 def warmup():
     R.warm()
-    from props import c03
+    from props import _hist, c03
+
+    _hist.warm()
 
     c03.warmup()  # compiles the integer-typed signatures
 
@@ -97,6 +99,9 @@ def gen_cases(tier, seed):
         for vg in c03.WHOLE_VGS:
             if not vg.startswith("rigid"):
                 keys.append(dict(mode="dtype", part="dtype", fab=fab, reg=reg, vg=vg))
+    for fab, reg in itertools.product(alph.FABRICS, alph.DISL):
+        for prm in ZERO_PARAMS:
+            keys.append(dict(mode="driver", fab=fab, reg=reg, param=prm))
     return keys
 
 
@@ -171,7 +176,41 @@ def compare(res, key, names, A, f, D, L, prm, rg, ph, fb, extra=None):
     return dA, df, bool((nz >= 2).any())
 
 
+ZERO_PARAMS = ["nucleation_efficiency", "gbm_mobility"]  # (the sliding threshold is NOT continuous at 0: a grain of exactly zero volume lies below any positive threshold)
+
+
+def run_driver(key):
+    """Through Mineral.update_orientations: a parameter declared as exactly 0 behaves as the
+    limit of a vanishing positive value (1e-300 changes no float64 result), i.e. it is honoured
+    and not replaced by a default (seed C02i: `params.get(...) or default`)."""
+    from props import _hist as H
+
+    res = empty_result()
+    ph, fb = alph.FABRICS[key["fab"]]
+    outs = []
+    for val in (0.0, 1e-300, 0):
+        prm = H.params_for(ph, "default")
+        prm[key["param"]] = val
+        m = H.build_mineral(dict(fab=key["fab"], reg=key["reg"], tex="random", vol="geometric", ng=8, prm="default"))
+        res["n"] += 1
+        res["trans"] += 1
+        F = H.update(m, prm, np.eye(3), H.flow("gen"), 0.0, 0.4)
+        outs.append((np.array(m.orientations[-1]), np.array(m.fractions[-1]), np.asarray(F)))
+    res["states"] = 3
+    res["clauses"]["zero_parameter_honoured"] = 2
+    for j in (1, 2):
+        if not all(np.array_equal(a, b) for a, b in zip(outs[0], outs[j])):
+            res["viol"].append({"clause": "zero_parameter_honoured", "key": dict(key, against=["", "1e-300", "int 0"][j]), "detail": {"max_fraction_diff": float(np.abs(outs[0][1] - outs[j][1]).max()), "max_orientation_diff": float(np.abs(outs[0][0] - outs[j][0]).max())}})
+    res["nontrivial"].append(digest(key))
+    res["outcomes"].append(digest(np.round(outs[0][1], 9)))
+    res["obs"] = digest(outs[0][0], outs[0][1])
+    res["sample"] = {"case": key}
+    return res
+
+
 def run_case(key):
+    if key["mode"] == "driver":
+        return run_driver(key)
     if key["mode"] == "dtype":
         from props import c03
 
